@@ -35,6 +35,11 @@ def run(res: C.Result):
             p["hookean"] = True
         p["logfile"] = None
         cases.append(p)
+    for k in range(8 if quick else 100):
+        p = progs.relocate_program(rng, k)       # delete-then-insert in one (plain composite) trial
+        p.update(energy_probe=True, criteria="both", calc=["caching", "inplace"][k % 2], fixed=[])
+        p["arrays"] = {a: False for a in p["arrays"]}
+        cases.append(p)
     outs = C.run_impl_parallel("c04.py", [{"cases": cases[i::16]} for i in range(16)], timeout=3000)
     results = [None] * len(cases)
     for j, o in enumerate(outs):
